@@ -73,22 +73,30 @@ def _generate_model_code(
             )
         )
 
-    # Derived
-    for name, derived in model.get_raw_derived().items():
-        expr = custom_fns.get(name)
-        if expr is None:
-            expr = fn_to_sympy(
-                derived.fn,
-                origin=name,
-                model_args=list_of_symbols(derived.args),
-            )
-        if expr is None:
-            msg = f"Unable to parse fn for derived value '{name}'"
-            raise ValueError(msg)
-        source.append(assignment_template.format(k=name, v=sympy_inline_fn(expr)))
+    # Derived and reactions, in the order the model itself evaluates them, so that
+    # every name is assigned before it is used
+    all_derived = model.get_raw_derived()
+    all_reactions = model.get_raw_reactions()
+    eval_order: list[str] = (
+        [] if (cache := model._cache) is None else cache.order  # noqa: SLF001
+    )
+    for name in eval_order:
+        if (derived := all_derived.get(name)) is not None:
+            expr = custom_fns.get(name)
+            if expr is None:
+                expr = fn_to_sympy(
+                    derived.fn,
+                    origin=name,
+                    model_args=list_of_symbols(derived.args),
+                )
+            if expr is None:
+                msg = f"Unable to parse fn for derived value '{name}'"
+                raise ValueError(msg)
+            source.append(assignment_template.format(k=name, v=sympy_inline_fn(expr)))
+            continue
 
-    # Reactions
-    for name, rxn in model.get_raw_reactions().items():
+        if (rxn := all_reactions.get(name)) is None:
+            continue
         expr = custom_fns.get(name)
         if expr is None:
             try:
